@@ -35,6 +35,12 @@ def sus_case(cid, sus, wint, scale, k, size, rng, o=None):
         c.update(cnt=[0] * len(wint), nout=0, shapeok=False, exc="%s: %s" % (type(e).__name__, e))
         return c
     out = np.asarray(out)
+    if c["scripted"]:
+        # the scripted offset is only meaningful if the function asked for exactly one uniform(0, pointer distance) draw and
+        # one shuffle; an implementation that draws differently is validated through the floor/ceiling relation only
+        ulog = [e for e in getattr(rng, "log", []) if e[0] == "uniform"]
+        if len(ulog) != 1 or ulog[0][3] is not None or float(ulog[0][1]) != 0.0:
+            c["scripted"] = False; c["o"] = 0; c["replay_inapplicable"] = True
     want = (size,) if isinstance(size, int) else tuple(size)
     c["shapeok"] = tuple(out.shape) == want
     flat = out.ravel()
